@@ -53,9 +53,26 @@ def mk(mps, sb=5, role="corr"):
     return t
 
 
+# R configurations: (sb = SEQUENCE_NUMBER_BITS, alphabet profile of SsIn.ss_alpha)
+R_QUICK = [(1, 3)]
+R_THOROUGH = [(1, 3), (2, 3), (2, 1)]
+PROFILE_TEXT = {
+    3: "control profile: stream words with masks 1111 / 1111+last / 0011+last (payload 0), host: IN request, ACK with "
+       "NumP 0 and 1, retry by flag and by repeated sequence number, ACK TPs for another endpoint, tx.ready both ways "
+       "while a word is on offer, generator ready/done both ways while ERDY is requested",
+    1: "data profile: full stream words whose payload tells the buffer position (0x11223344 first, 0xAABBCCDD after), "
+       "with and without last; host: IN request, ACK with NumP 0 and 1, retry; tx.ready both ways",
+}
+
+
+def r_configs(tier):
+    return R_QUICK if tier == "quick" else R_THOROUGH
+
+
 def targets(tier):
-    ts = [mk(8, 2, "R")]
-    sizes = [8, 12, 64, 1024] if tier == "quick" else [8, 12, 16, 20, 64, 512, 1024]
+    sbs = sorted({sb for sb, _ in r_configs(tier)})
+    ts = [mk(8, sb, "R") for sb in sbs]
+    sizes = [12, 1024] if tier == "quick" else [8, 12, 16, 20, 64, 512, 1024]
     return ts + [mk(m) for m in sizes]
 
 
@@ -208,11 +225,11 @@ def traces(target, rng, tier):
     mps = target.params["mps"]
     s = Script(target)
     big = mps >= 256
-    n = (10 if big else 28) if tier == "quick" else (30 if big else 120)
+    n = (2 if big else 14) if tier == "quick" else (12 if big else 84)
     out = []
     for k in range(n):
         style = k % 7
-        ncyc = rng.randint(40, 160) + (6 * mps if big else 8 * mps)
+        ncyc = rng.randint(40, 160) + (int(1.6 * mps) if big else 8 * mps)
         o = dict(small=(target.role == "R"))
         if style == 0:
             o.update(p_valid=1.0, p_ready=1.0, p_poll=0.9, p_more=0.95, ack_delay=(1, 2), p_retry=0.05)   # full throughput
@@ -226,27 +243,99 @@ def traces(target, rng, tier):
             o.update(sloppy=True, p_foreign=0.3)
         elif style == 5:
             o.update(p_valid=0.4, p_more=0.9, ack_delay=(1, 1), gen_delay=(1, 1))
+        if big:
+            o.update(p_valid=max(o.get("p_valid", 0.7), 0.7))
         out.append(s.run(rng, ncyc, **o))
     return out
 
 
+def _ref_ob(t):
+    mps, sb = t.params["mps"], t.params["sb"]
+    return tie.cmon(f"ref_{t.name}", t, mon=f"(ref_monN {mps} {EP} {sb})", m0="(ref_enc ref_init)",
+                    describe=f"the referee (specification SsIn.ref_step) over simulator traces of the real endpoint, "
+                             f"max_packet_size={mps}")
+
+
+def _confirm(ob, ref):
+    """A lock-step counterexample found by the certified-reachability search is replayed on the simulator of the real
+    module and judged by the referee; if the (shortest) lock-step difference is not itself a violation of the
+    specification, the referee is run over scripted traces of the real module to find a concrete failing input."""
+    def confirm(path, bdir, hdr):
+        import random
+        from harness import core, check
+        t = ob.target
+        trace = [core.nir2coq.unpack(t.layout.inputs, x) for x in path]
+        outs = t.simulate([trace])[0]
+        packed = [[(t.pack_in(c), t.pack_out(x)) for c, x in zip(trace, outs)]]
+        codes = check.eval_monitor(ref, packed, bdir, hdr, f"ConfirmRef_{ob.name}")
+        if codes and codes[0] != 0:
+            return dict(property=PID, obligation=ref.name, target=t.name, describe=ref.describe, inputs=trace, outputs=outs,
+                        confirmed_on_pysim=True, failing_cycle=codes[0] - 1,
+                        how="input path from the certified-reachability search on the regenerated netlist (first cycle in which "
+                            "it leaves the model), replayed on Amaranth's simulator of /repo: the referee rejects the trace")
+        trs = traces(t, random.Random(1), "quick")
+        outs2 = t.simulate(trs)
+        packed2 = [[(t.pack_in(c), t.pack_out(x)) for c, x in zip(tr, ou)] for tr, ou in zip(trs, outs2)]
+        codes2 = check.eval_monitor(ref, packed2, bdir, hdr, f"ConfirmRef2_{ob.name}")
+        for k, c in enumerate(codes2):
+            if c != 0:
+                return dict(property=PID, obligation=ref.name, target=t.name, describe=ref.describe,
+                            inputs=trs[k][:c], outputs=outs2[k][:c], confirmed_on_pysim=True, failing_cycle=c - 1,
+                            how="the regenerated netlist leaves the model (lock-step counterexample "
+                                f"{trace}); the referee rejects this scripted simulator trace of /repo")
+        codes3 = check.eval_monitor(ob, packed, bdir, hdr, f"ConfirmLock_{ob.name}")
+        return dict(property=PID, obligation=ob.name, target=t.name, describe=ob.describe, inputs=trace, outputs=outs,
+                    confirmed_on_pysim=bool(codes3 and codes3[0] != 0),
+                    failing_cycle=(codes3[0] - 1) if codes3 and codes3[0] else None,
+                    how="lock-step counterexample (netlist output word differs from the model's); the referee accepted all "
+                        "sampled traces")
+    return confirm
+
+
 def obligations(targets, tier):
+    from harness import tie_dep
     obs = []
+    byname = {t.name: t for t in targets}
+    for sb, prof in r_configs(tier):
+        t = byname[f"ssin_m8_s{sb}"]
+        ob = tie_dep.rlock_dep(
+            f"ob_m8_s{sb}_p{prof}", t,
+            St="ss_state", mstep=f"ss_step 8 {EP} {sb}", enc="ss_enc", dec="ss_dec", wf="ss_wf",
+            dec_enc="ss_dec_enc", wf_step=f"(ss_wf_step 8 {EP} {sb} ltac:(lia) ltac:(lia))",
+            m0="ss_init", wf_m0="exact ss_wf_init.", alpha=f"ss_alpha {prof} {EP} {sb}", fuel=100000,
+            describe=f"SuperSpeedStreamInEndpoint(max_packet_size=8, SEQUENCE_NUMBER_BITS={sb}) == model in lock step, all "
+                     f"outputs, every trace over the state-dependent alphabet ss_alpha {prof} ({PROFILE_TEXT[prof]})")
+        ob.confirm = _confirm(ob, _ref_ob(t))
+        obs.append(ob)
     for t in targets:
         mps, sb = t.params["mps"], t.params["sb"]
-        obs.append(tie.cmon(f"ref_{t.name}", t, mon=f"(ref_monN {mps} {EP} {sb})", m0="(ref_enc ref_init)",
-                            describe=f"the referee (specification) over simulator traces of the real endpoint, max_packet_size={mps}"))
+        obs.append(_ref_ob(t))
         obs.append(tie.corr(f"corr_{t.name}", t, mstep=f"ss_step {mps} {EP} {sb}", m0="ss_init",
-                            describe=f"model vs simulator, max_packet_size={mps}, scripted producer/host/generator"))
+                            describe=f"model vs simulator, all outputs every cycle, max_packet_size={mps}, "
+                                     f"{'two payload words' if t.role == 'R' else 'random 32-bit payload'}, scripted "
+                                     f"producer / host (retries, NumP 0/1, foreign ACKs) / generator"))
     return obs
 
 
 def tie_theorems(targets, tier):
-    return ""
+    s = ""
+    byname = {t.name: t for t in targets}
+    for sb, prof in r_configs(tier):
+        G = byname[f"ssin_m8_s{sb}"].modname
+        s += f"""
+Theorem C46_netlist_m8_s{sb}_p{prof}_meets_spec : forall tr,
+  alpha_ok ss_state (ss_step 8 {EP} {sb}) (ss_alpha {prof} {EP} {sb}) ss_init tr = true ->
+  ref_accepts_io 8 {EP} {sb} ref_init (combine tr (run {G}.step {G}.init tr)) = true.
+Proof.
+  intros tr H. apply ssin_accepted_io; try lia; try reflexivity.
+  apply ob_m8_s{sb}_p{prof}_T.tie. exact H.
+Qed.
+"""
+    return s
 
 
 def tie_theorem_names(targets, tier):
-    return []
+    return [f"C46_netlist_m8_s{sb}_p{prof}_meets_spec" for sb, prof in r_configs(tier)]
 
 
 LEVEL_TEXT = "in progress"
